@@ -18,7 +18,8 @@ Record procinfo := {
   pi_fqcn : string;               (* module.qualname of the class named by `processor` *)
   pi_kind : kind;
   pi_required : list string;      (* parameter names without default, signature order *)
-  pi_created : list string        (* declared created context keys *)
+  pi_created : list string;       (* declared created context keys *)
+  pi_suppressed : list string     (* context keys the node deletes (rename source, delete) *)
 }.
 
 Inductive vspec :=
@@ -196,9 +197,26 @@ Definition node_created (n : node) : list string :=
   pi_created (n_info n).
 Fixpoint dedup (l : list string) : list string :=
   match l with [] => [] | x :: r => if mem_str x r then dedup r else x :: dedup r end.
-Definition required_keys (c : config) : list string :=
+(* older variant: global set difference (all required) - (all created) *)
+Definition required_global (c : config) : list string :=
   let created := flat_map node_created c in
-  ksort sid (dedup (filter (fun k => negb (mem_str k created)) (flat_map node_required c))).
+  filter (fun k => negb (mem_str k created)) (flat_map node_required c).
+(* current variant: in node order; a name is externally required when no earlier node created it
+   or an earlier node deleted it *)
+Definition req_step (st : list string * list string * list string) (n : node)
+  : list string * list string * list string :=
+  match st with
+  | (origin, deleted, req) =>
+      let r := filter (fun x => negb (mem_str x origin) || mem_str x deleted) (node_required n) in
+      let cr := node_created n in
+      ((origin ++ cr)%list,
+       (filter (fun y => negb (mem_str y cr)) deleted ++ pi_suppressed (n_info n))%list,
+       (req ++ r)%list)
+  end.
+Definition required_ordered (c : config) : list string :=
+  match fold_left req_step c ([], [], []) with (_, _, req) => req end.
+Definition required_keys (c : config) : list string :=
+  ksort sid (dedup (if required_in_node_order then required_ordered c else required_global c)).
 
 Record ids := {
   i_uuids : list string;
